@@ -22,7 +22,7 @@ static inline int vp_row0_zero(mzd_t const *T, int from_w, int to_w) {
 }
 #define VP_TBL_MASK(M, c, w) (VP_FROMCOL(c, w) & VP_CELLMASK(M, w))
 #define REQ_mzd_make_table(M, r, c, k, T, L)                                                       \
-  (VP_HDR(M) && VP_HDR(T) && VP_NONEMPTY(M) && (k) >= 1 && (k) <= 8 && (r) >= 0 && (r) + (k) <= (M)->nrows && (c) >= 0 && (c) < (M)->ncols &&            \
+  (VP_HDR(M) && VP_HDR(T) && VP_NONEMPTY(M) && (k) >= 1 && (k) <= 8 && (r) >= 0 && (r) <= (M)->nrows - (k) && (c) >= 0 && (c) < (M)->ncols &&            \
    (T)->nrows >= (1 << (k)) && (T)->ncols == (M)->ncols && vp_row0_zero(T, (c) / 64, (M)->width) && vg_x >= 0 && vg_x < (1 << (k)) && vg_y >= 0 &&        \
    vg_y < (1 << (k)) && vg_w >= 0 && vg_w < (M)->width && VP_GHOST_OK(M, vh_r, vh_w))
 #define ENS1_mzd_make_table(M, r, c, k, T, L) ((L)[vg_x] >= 0 && (L)[vg_x] < (1 << (k)) && (L)[0] == 0 && VP_IMP(vg_x != vg_y, (L)[vg_x] != (L)[vg_y]))
